@@ -25,6 +25,8 @@ type Schema struct {
 	AddAny   bool
 	AllOf    []*Schema
 	OneOf    []*Schema
+	DiscProp string            // discriminator.propertyName (with OneOf)
+	DiscMap  map[string]string // discriminator.mapping: value -> component schema name
 	Desc     string
 }
 
@@ -81,6 +83,17 @@ func (s *Schema) Doc() map[string]interface{} {
 			l = append(l, x.Doc())
 		}
 		m["oneOf"] = l
+		if s.DiscProp != "" {
+			d := map[string]interface{}{"propertyName": s.DiscProp}
+			if len(s.DiscMap) > 0 {
+				mp := map[string]interface{}{}
+				for k, v := range s.DiscMap {
+					mp[k] = "#/components/schemas/" + v
+				}
+				d["mapping"] = mp
+			}
+			m["discriminator"] = d
+		}
 	}
 	if s.Desc != "" {
 		m["description"] = s.Desc
